@@ -68,7 +68,7 @@ Clause(name, ok, tag, k) == ok \/ PrintT(<<"VIOL", name, k, tag>>)
 \* ---------------------------------------------------------------- ghosts
 G0 == [tr |-> -1, brought |-> 0, taken |-> 0, banks |-> <<>>, bankIds |-> {}, lastGc |-> 0, gids |-> {}, handLive |-> FALSE,
        handIds |-> <<>>, openBank |-> <<>>, openBlind |-> <<>>, openLabels |-> <<>>, lastParts |-> {}, afterBank |-> <<>>, afterIds |-> {},
-       missed |-> <<>>, missedIds |-> {}, ext |-> FALSE, extSetup |-> FALSE, openWin |-> {}, botCalls |-> {}, leavePending |-> {}, awaitFire |-> FALSE, blindSinceFire |-> FALSE, closedBetween |-> FALSE, lastStatus |-> "none",
+       missed |-> <<>>, missedIds |-> {}, ext |-> FALSE, extSetup |-> FALSE, openWin |-> {}, botCalls |-> {}, leavePending |-> {}, awaitFire |-> FALSE, blindSinceFire |-> FALSE, ansIds |-> {}, prevAns |-> {}, closedBetween |-> FALSE, lastStatus |-> "none",
        cnt |-> <<>>, cntIds |-> {}, actEvents |-> <<>>, spyCalls |-> <<>>, inGate |-> "", blindSet |-> <<>>, blindSetInGate |-> FALSE,
        leftSince |-> {}, faults |-> 0, lastUpd |-> 0, kfMidLeave |-> FALSE,
        withholdSt |-> <<>>, settledSt |-> <<>>, openSt |-> <<>>, callQ |-> <<>>, pubH |-> <<>>, nospy |-> FALSE, ownTid |-> "", engineHand |-> <<>>, engineStatus |-> "none", lastGcSeen |-> 0, enginePlayers |-> 0, autoFails |-> 0, errEvents |-> 0, afterFire |-> FALSE, fireSt |-> <<>>]
@@ -117,7 +117,8 @@ Upd(gg, k) ==
                                     !.fr = IF t.a.kind = "fold" /\ Len(t.pre) = 1 /\ HasHand(t.pre[1]) THEN H(t.pre[1]).round ELSE @]
                      ELSE c
            IN [g2 EXCEPT !.cnt = [id \in g2.cntIds \cup {t.a.id} |-> IF id = t.a.id THEN c2 ELSE g2.cnt[id]],
-                         !.cntIds = @ \cup {t.a.id}, !.actEvents = <<>>, !.spyCalls = <<>>]
+                         !.cntIds = @ \cup {t.a.id}, !.actEvents = <<>>, !.spyCalls = <<>>,
+                         !.ansIds = IF t.res = "ok" /\ t.a.kind \in {"ready", "pay"} THEN @ \cup {<<t.a.id, t.a.kind>>} ELSE @]
         ELSE IF IsRet(t) THEN [g2 EXCEPT !.actEvents = <<>>, !.spyCalls = <<>>]
         ELSE IF t.ev = "cb:action" THEN [g2 EXCEPT !.actEvents = Append(@, t.a)]
         ELSE IF t.ev = "spy" THEN [g2 EXCEPT !.spyCalls = Append(@, <<t.a.kind, t.res, t.a.amt>>), !.faults = @ + (IF t.res = "ok" THEN 0 ELSE 1),
@@ -141,7 +142,8 @@ Upd(gg, k) ==
                   ELSE g3
             gC == IF HasHand(st) /\ t.ev = "cb:updated"
                   THEN (IF H(st).upd # gA.lastUpd
-                        THEN [gA EXCEPT !.lastUpd = H(st).upd, !.pubH = <<StripWrapper(ToHand(H(st)))>>, !.callQ = IF @ = <<>> THEN <<>> ELSE Tail(@)]
+                        THEN [gA EXCEPT !.lastUpd = H(st).upd, !.pubH = <<StripWrapper(ToHand(H(st)))>>, !.callQ = IF @ = <<>> THEN <<>> ELSE Tail(@),
+                                        !.prevAns = gA.ansIds, !.ansIds = {}]
                         ELSE gA)
                   ELSE gA
         IN [gC EXCEPT !.banks = Banks(st), !.bankIds = Ids(st), !.lastStatus = st.status]
@@ -430,11 +432,17 @@ C11_noEarlyAdvance(t, gg) ==
     HasHand(t.st) /\ H(t.st).upd = H(gg.withholdSt[1]).upd /\ H(t.st).ev = H(gg.withholdSt[1]).ev
 \* the driver gave up waiting although every asked player had answered / a produced hand state was never handled
 HandStall(t) == t.ev = "idle" \/ (t.ev = "stuck" /\ t.a.kind = "hand")
+\* ... "every asked player had answered" is taken from the recorded calls, not from the driver's own book-keeping
+AskedIds(st) == IF HasHand(st) THEN {GpiIds(st)[i] : i \in {j \in 1..Len(st.gpi) : j <= Len(H(st).p) /\ (Range(H(st).p[j].allowed) \cap {"ready", "pay"}) # {}}} ELSE {}
+AnswersRecorded(t, gg) ==
+  \/ t.ev = "idle" \/ H(t.st).ev \notin {"ReadyRequested", "AnteRequested", "BlindsRequested"}
+  \/ LET need == IF H(t.st).ev = "ReadyRequested" THEN "ready" ELSE "pay" IN
+     \A id \in AskedIds(t.st) : <<id, need>> \in (gg.ansIds \cup gg.prevAns)
 \* ... and once the response time-out (17 s) has passed the hand has moved on by itself
 C11_timeoutAdvances(t, gg) ==
   (t.ev = "withheld" /\ Len(gg.withholdSt) = 1 /\ t.a.amt >= 17500 /\ HasHand(gg.withholdSt[1]) /\ ~gg.ext /\ gg.faults = 0) =>
     (~HasHand(t.st) \/ H(t.st).upd # H(gg.withholdSt[1]).upd)
-C11_progress(t, gg) == (HandStall(t) /\ gg.faults = 0 /\ ~gg.ext) => FALSE
+C11_progress(t, gg) == (HandStall(t) /\ gg.faults = 0 /\ ~gg.ext /\ HasHand(t.st) /\ AnswersRecorded(t, gg)) => FALSE
 C11_resultComplete(t, gg) == IsSettledSnap(t) => Len(ResultOf(t.st)) = Len(gg.handIds) /\ Len(H(t.st).p) = Len(gg.handIds)
 
 \* ---------------------------------------------------------------- hand conformance (C10 "applied once", C11 "moves on by itself")
